@@ -42,14 +42,35 @@ def step (j : Json) : R Json := do
     let poly ← (← fRatss j "poly").mapM toPt
     let s ← getSeg j
     let hs := halfPlanes poly
-    pure (obj [("closed", ofIvOpt (clipConvex hs s)), ("open", ofIvOpt (clipConvexOpen hs s))])
+    pure (obj [("closed", ofIvOpt (clipConvex hs s)), ("open", ofIvOpt (clipConvexOpen hs s)),
+               ("convex", Json.bool (convexCCWb (ccwOrder poly))),
+               ("cw", Json.bool (decide (area2 poly < 0)))])
   | "shclip" =>
     let hs ← (← fRatss j "hs").mapM toHS
     let poly ← (← fRatss j "poly").mapM toP3
     let c := shClip hs poly
     let a := vecArea2 c
-    pure (obj [("n", ofNat c.length), ("area2", ofRats [a.x, a.y, a.z]),
-               ("verts", ofList (fun (p : P3) => ofRats [p.x, p.y, p.z]) c)])
+    let base := [("n", ofNat c.length), ("area2", ofRats [a.x, a.y, a.z]),
+               ("verts", ofList (fun (p : P3) => ofRats [p.x, p.y, p.z]) c)]
+    -- optional: plane coordinates of the polygon; then the hypotheses of the completeness theorems
+    -- are evaluated (convex counter-clockwise in plane coordinates, polygon = image of them) and the
+    -- 2d algorithm is run as well
+    match j.getObjVal? "uv" with
+    | .ok _ =>
+      let uv ← (← fRatss j "uv").mapM toPt
+      let fr ← (← fRatss j "frame").mapM toP3
+      match fr with
+      | [O, U, V] =>
+        let uv' := ccwOrder uv
+        let img := uv.map (embed O U V)
+        let c2 := (shClip2 (hs.map (pullHS O U V)) uv').map (embed O U V)
+        let a2 := vecArea2 c2
+        pure (obj (base ++ [("convex_ccw", Json.bool (convexCCWb uv')),
+                            ("embed_ok", Json.bool (decide (img = poly))),
+                            ("planar_ok", Json.bool (decide (shClip hs (uv'.map (embed O U V)) = c2))),
+                            ("area2_2d", ofRats [a2.x, a2.y, a2.z])]))
+      | _ => throw "frame needs three vectors"
+    | .error _ => pure (obj base)
   | _ => throw s!"unknown op {op}"
 
 def main : IO Unit := runPure step
